@@ -6,6 +6,9 @@ import k8s as K
 import project as P
 
 NS = "ns1"
+# quantities as users write them: canonical and not (the API server stores a custom resource's text verbatim)
+CPUS = ["1", "500m", "2", "0.5", "1000m", "5e-1", "2000m"]
+MEMS = ["64Mi", "128Mi", "0.125Gi", "131072Ki"]
 EDS = "foo"
 
 TAINTS = [
@@ -63,7 +66,7 @@ def gen_nodes(rng, n, eds_ns=NS, eds_name=EDS, containers=("main",)):
         ann = {}
         r = rng.random()
         if r < 0.12:
-            ann["%s%s.%s.%s" % (P.RES_PREFIX, eds_ns, eds_name, containers[0])] = json.dumps({"limits": {"cpu": rng.choice(["1", "500m"])}})
+            ann["%s%s.%s.%s" % (P.RES_PREFIX, eds_ns, eds_name, containers[0])] = json.dumps({"limits": {"cpu": rng.choice(["1", "500m", "0.5", "1000m"])}})
         elif r < 0.16:
             ann["%s%s.%s.%s" % (P.RES_PREFIX, eds_ns, eds_name, containers[0])] = "{not json"
         elif r < 0.2:
@@ -260,7 +263,7 @@ def gen_ers_world(rng, stats=None, force=None):
                 key = "%s%s.%s.%s" % (P.RES_PREFIX, NS, EDS, cname)
                 if r < 0.25:
                     nd["metadata"].setdefault("annotations", {})[key] = json.dumps(
-                        {"limits": {"cpu": rng.choice(["1", "500m", "2"])}, "requests": {"memory": rng.choice(["64Mi", "128Mi"])}})
+                        {"limits": {"cpu": rng.choice(CPUS)}, "requests": {"memory": rng.choice(MEMS)}})
                 elif r < 0.32:
                     nd["metadata"].setdefault("annotations", {})[key] = rng.choice(["{not json", "[]", "\"x\""])
     node_names = [x["metadata"]["name"] for x in nodes]
@@ -312,7 +315,7 @@ def gen_ers_world(rng, stats=None, force=None):
     sets = []
     if rng.random() < (0.8 if force.get("rich_resources") else 0.3):
         for j in range(rng.choice([1, 1, 2])):
-            entries = [(cname, {"limits": {"cpu": rng.choice(["1", "500m", "2"])}, "requests": {"memory": "128Mi"}})
+            entries = [(cname, {"limits": {"cpu": rng.choice(CPUS)}, "requests": {"memory": rng.choice(["128Mi", "128Mi", "0.125Gi"])}})
                        for cname in conts if cname == conts[0] or rng.random() < 0.5]
             sets.append(K.setting(NS, "set%d" % j, rng.choice([EDS, EDS, EDS, "other", None]),
                                   rng.choice([{"matchLabels": {"big": "yes"}}, {"matchLabels": {"zone": "a"}},
@@ -361,7 +364,7 @@ def gen_ers_world(rng, stats=None, force=None):
             objs.append(K.pod(NS, "legacy-" + nn, node=nn, labels={"ds": "legacy"}, ds_owner="legacy", ready=rng.random() < 0.7))
     ops = []
     faults = None
-    if rng.random() < 0.12 and not force.get("no_faults"):
+    if rng.random() < force.get("fault_rate", 0.12) and not force.get("no_faults"):
         faults = {}
         if rng.random() < 0.5 and node_names:
             faults["create_nodes"] = rng.sample(node_names, rng.randint(1, len(node_names)))
@@ -460,7 +463,7 @@ def gen_eds_world(rng, stats=None, force=None):
         created = rng.choice([-601, -600, -599, -61, -60, -59, -11, -10, -9, -5, -3000])
         rss.append(mk_rs("foo-b", tplB, "canary", created, conds))
         eds_tpl = tplB
-        k = rng.choice([0, 0, 1, 1, 2, 3])
+        k = force.get("canary_k", rng.choice([0, 0, 1, 1, 2, 3]))
         cn = rng.sample(node_names, min(k, len(node_names)))
         if rng.random() < 0.15:
             cn.append("n-gone")
